@@ -32,6 +32,8 @@ pub enum Op {
     CloneSwap,
     /// read-only introspection that many callers do between parses
     Introspect,
+    /// build(), then render help of the subcommand addressed by the path through `find_subcommand_mut`
+    SubRender(Vec<u8>, bool),
 }
 
 impl Op {
@@ -50,6 +52,7 @@ impl Op {
             Op::Error(_) => "error",
             Op::CloneSwap => "clone_swap",
             Op::Introspect => "introspect",
+            Op::SubRender(..) => "sub_render",
         }
     }
     fn mutates_definition_view(&self) -> bool {
@@ -266,7 +269,7 @@ impl Engine for CmdSim {
         }
         let argv0 = pick_argv0(rng, &spec);
         let n_ops = if rng.chance(1, 5) { rng.urange(1, 3) } else { rng.urange(2, 12) };
-        let mut w = [14u32, 3, 3, 2, 2, 2, 1, 1, 1, 1, 2, 2, 1];
+        let mut w = [14u32, 3, 3, 2, 2, 2, 1, 1, 1, 1, 2, 2, 1, 2];
         // swarm: some histories are parse-only (message identity asserted), some render-heavy
         match rng.below(4) {
             0 => {
@@ -309,7 +312,8 @@ impl Engine for CmdSim {
                 9 => Op::WriteLongHelp,
                 10 => Op::Error(rng.below(ERROR_KINDS.len() as u64) as u8),
                 11 => Op::CloneSwap,
-                _ => Op::Introspect,
+                12 => Op::Introspect,
+                _ => Op::SubRender((0..rng.urange(1, 2)).map(|_| rng.below(4) as u8).collect(), rng.coin()),
             });
         }
         if !ops.iter().any(|o| matches!(o, Op::Parse(_) | Op::ParseClone(_))) {
@@ -481,6 +485,40 @@ impl Engine for CmdSim {
                 Op::CloneSwap => {
                     aged = aged.clone();
                     ev!(log, "{i} clone_swap");
+                }
+                Op::SubRender(path, long) => {
+                    parse_only = false;
+                    let r = catch(|| {
+                        aged.build();
+                        let mut names: Vec<String> = Vec::new();
+                        let mut cur_spec = &sc.spec;
+                        for p in path {
+                            if cur_spec.subs.is_empty() {
+                                break;
+                            }
+                            cur_spec = &cur_spec.subs[*p as usize % cur_spec.subs.len()];
+                            names.push(cur_spec.name.clone());
+                        }
+                        let mut cur = &mut aged;
+                        for n in &names {
+                            match cur.find_subcommand_mut(n) {
+                                Some(c) => cur = c,
+                                None => return 0,
+                            }
+                        }
+                        if *long {
+                            cur.render_long_help().to_string().len()
+                        } else {
+                            cur.render_help().to_string().len()
+                        }
+                    });
+                    match r {
+                        Ok(n) => ev!(log, "{i} sub_render {:?} -> {n}", path),
+                        Err(p) => {
+                            ev!(log, "{i} sub_render -> panic {}", short_file(&p));
+                            out.count_dyn(format!("obs.sub_render_panics_in_{}", short_file(&p)));
+                        }
+                    }
                 }
             }
             ops_before += 1;
